@@ -15,6 +15,7 @@ import copy
 import os
 
 from mon import contracts as ct
+import numpy as np
 import pandas as pd
 
 from mon import core
@@ -171,6 +172,10 @@ def run_case(case: dict) -> dict:
                     viols.append(core.viol("frozen value changed with state/time", None, name=k, at0=float(a0[k]), later=float(got[k]), spec=spec))
             # sensitivity: would a recomputation at (st,t) have given something else?
             sensitive = sensitive or _recompute_differs(ref, st, t)
+            # the table of coefficients is asked for at this state, and the derivatives again afterwards (asking changes nothing)
+            model.get_stoichiometries(st, t)
+            model.get_right_hand_side(st, t)
+            model(t, np.array([st[v] for v in model.get_variable_names()], dtype=float))
             # derivatives over a table of states: computed coefficients follow every row's own state and time
             st_b = rm.random_state(ref, rng)
             tab = pd.DataFrame([st, st_b], index=[t, t + 1.25])
